@@ -165,7 +165,8 @@ func (c *corpus) modelOf(s *spec) *mobj {
 		id := idOf(c.name, s.parent)
 		set(kParent, id.EncodeToString(), id[:])
 	}
-	if s.parent == "" && s.typ == object.TypeRegular {
+	// ROOT: regular objects that are not part of a split hierarchy, or its top-level (virtual) root
+	if s.parent == "" && s.first == "" && s.splitID == 0 && s.typ == object.TypeRegular {
 		set(kRoot, "1", nil)
 	}
 	if !s.virtual {
